@@ -15,6 +15,7 @@
 package pbft
 
 import (
+	"os"
 	"time"
 
 	"github.com/dappledger/AnnChain/gemmill/go-wire"
@@ -75,9 +76,29 @@ func (wal *WAL) OnStart() error {
 		return err
 	} else if size == 0 {
 		wal.writeHeight(1)
+	} else if !endsWithNewline(wal.group.Head.Path, size) {
+		// the process died while it was writing its last record: terminate the torn line,
+		// otherwise the next record (or #HEIGHT marker) would be glued to it and be unreadable too
+		wal.group.WriteLine("")
+		if err := wal.group.Flush(); err != nil {
+			return err
+		}
 	}
 	_, err = wal.group.Start()
 	return err
+}
+
+func endsWithNewline(path string, size int64) bool {
+	f, err := os.Open(path)
+	if err != nil {
+		return true
+	}
+	defer f.Close()
+	last := make([]byte, 1)
+	if _, err := f.ReadAt(last, size-1); err != nil {
+		return true
+	}
+	return last[0] == '\n'
 }
 
 func (wal *WAL) OnStop() {
